@@ -48,8 +48,23 @@ Definition call_obs (failing : list Z) (s : fs) (api p : Z) : obs :=
   | Panicked => mkObs (stat_of s p) [] 2 0
   end.
 
+(* a bare command name: the observation of the call through what LookPath finds;
+   nothing found: the working-directory file is checked and os/exec cannot start it *)
+Definition bare_obs (failing : list Z) (s : fs) (api l : Z) (q : option Z) : obs :=
+  match q with
+  | Some q' => call_obs failing s api q'
+  | None =>
+      let swallow := api =? 5 in
+      match check_file s l with
+      | CkOk => mkObs (stat_of s l) [] (if swallow then 0 else 1) (if swallow then 0 else 7)
+      | CkErr e => mkObs (stat_of s l) [] (if swallow then 0 else 1) (if swallow then 0 else reason_code e)
+      | CkPanic => mkObs (stat_of s l) [] 2 0
+      end
+  end.
+
 Definition model_obs (failing : list Z) (s : fs) (o : op) : option obs :=
   match o with
+  | OpExecBare api l q => Some (bare_obs failing s api l q)
   | OpExec api p | OpExecDuring api p _ => Some (call_obs failing s api p)
   | OpValidate c p =>
       Some match validate c s p with
@@ -108,6 +123,11 @@ Definition Call_holds (api : Z) (o : obs) : Prop :=
   Forall start_ok (ob_starts o) /\
   (~ stat_allowed o -> (api <> 5 -> ob_res o = 1) /\ ob_starts o = []).
 
+(* a call by bare command name: every start was of a root-controlled file, no panic
+   (which file the name denotes is the code's business; the clause is the same:
+   only a file that passes the test may run) *)
+Definition Bare_holds (o : obs) : Prop := Forall start_ok (ob_starts o) /\ ob_res o <> 2.
+
 (* Validate of a configuration that declares a command sensor or fan *)
 Definition Validate_holds (o : obs) : Prop :=
   (ob_res o = 0 -> stat_allowed o) /\ (~ stat_allowed o -> ob_res o = 1).
@@ -117,6 +137,8 @@ Definition is_nil {A} (l : list A) : bool := match l with [] => true | _ => fals
 Definition call_okb (api : Z) (o : obs) : bool :=
   forallb start_okb (ob_starts o) &&
   (stat_allowedb o || (((api =? 5) || (ob_res o =? 1)) && is_nil (ob_starts o))).
+
+Definition bare_okb (o : obs) : bool := forallb start_okb (ob_starts o) && negb (ob_res o =? 2).
 
 Definition validate_okb (o : obs) : bool :=
   if stat_allowedb o then true else (ob_res o =? 1).
@@ -155,6 +177,11 @@ Proof.
     destruct (Z.eqb_spec api 5) as [E|NE]; [reflexivity|]. cbn [orb]. apply Z.eqb_eq. auto.
 Qed.
 
+Lemma bare_okb_spec o : bare_okb o = true <-> Bare_holds o.
+Proof.
+  unfold bare_okb, Bare_holds. rewrite andb_true_iff, starts_okb_spec, negb_true_iff, Z.eqb_neq. reflexivity.
+Qed.
+
 Lemma validate_okb_spec o : validate_okb o = true <-> Validate_holds o.
 Proof.
   unfold validate_okb, Validate_holds. destruct (stat_allowedb o) eqn:A.
@@ -171,6 +198,8 @@ Fixpoint holds_ops (ops : list op) (os : list obs) : bool :=
   | [] => match os with [] => true | _ => false end
   | OpExec api _ :: r | OpExecDuring api _ _ :: r =>
       match os with o :: os' => call_okb api o && holds_ops r os' | [] => false end
+  | OpExecBare _ _ _ :: r =>
+      match os with o :: os' => bare_okb o && holds_ops r os' | [] => false end
   | OpValidate c _ :: r =>
       match os with
       | o :: os' => (if has_cmd c then validate_okb o else negb (ob_res o =? 2)) && holds_ops r os'
@@ -186,6 +215,8 @@ Fixpoint Holds_ops (ops : list op) (os : list obs) : Prop :=
   | [] => os = []
   | OpExec api _ :: r | OpExecDuring api _ _ :: r =>
       match os with o :: os' => Call_holds api o /\ Holds_ops r os' | [] => False end
+  | OpExecBare _ _ _ :: r =>
+      match os with o :: os' => Bare_holds o /\ Holds_ops r os' | [] => False end
   | OpValidate c _ :: r =>
       match os with
       | o :: os' => (if has_cmd c then Validate_holds o else ob_res o <> 2) /\ Holds_ops r os'
@@ -205,6 +236,8 @@ Proof.
       rewrite andb_true_iff, IH. destruct (has_cmd c).
       * rewrite validate_okb_spec. reflexivity.
       * rewrite negb_true_iff, Z.eqb_neq. reflexivity.
+    + destruct os as [|ob os']; [split; [discriminate|contradiction]|].
+      rewrite andb_true_iff, bare_okb_spec, IH. reflexivity.
     + destruct os as [|ob os']; [split; [discriminate|contradiction]|].
       rewrite andb_true_iff, call_okb_spec, IH. reflexivity.
 Qed.
